@@ -137,3 +137,15 @@ package config
 //@   props C18
 //@   ensures @C18 res == typeis(err, "gopki/generator/config.ErrorUnknownFile")
 
+// OverrideNeededBuilder never yields an extension: a profile extension without content that no certificate extension
+// replaces makes signing fail (C08). The box fact restates this contract through the interface's naming function.
+//@ func (OverrideNeededBuilder).Compile returns (p, err)
+//@   props C08 C06
+//@   ensures @C08,C06 err != nil && p == nil
+//@ boxfact OverrideNeededBuilder forall x int :: compileErr(box, x) != #nilAny
+
+// FunctionBuilder without a function is an error, not a nil dereference.
+//@ func (FunctionBuilder).Compile returns (p, err)
+//@   props C06 C20
+//@   unverified calls a function value
+//@   abstracts f.Function == nil ==> err != nil && p == nil
